@@ -177,6 +177,36 @@ def gen_switch_shared(rng, idx):
     return {"name": "m%d" % idx, "ret": "I", "params": ["I", "I"], "body": body}
 
 
+def gen_shared_const(rng, idx):
+    """a negative constant in a register used by two or more instructions, one of them an addition or subtraction with the
+    constant as second operand: whatever the writer does to print `x + -5` nicely must not touch the other uses"""
+    k = rng.choice((-5, -100, -1, -70000, -32768, -2147483648, 7))
+    body = [("const", r, 0) for r in ("i0", "i1", "i3")] + [("const", r, 0) for r in ("l0", "l1")] + [("const", "i2", k)]
+    first = ("bin", rng.choice(("add", "sub")), 3, "i0", "p0", "i2")
+    other = rng.choice((("bin", "mul", 3, "i1", "p1", "i2"), ("bin", "and", 3, "i1", "p1", "i2"), ("bin", "sub", 3, "i1", "i2", "p1"),
+                        ("bin", "add", 3, "i1", "p1", "i2"), ("bin", "xor", 3, "i1", "i2", "p1")))
+    body += [first, other] if rng.random() < 0.7 else [other, first]
+    if rng.random() < 0.5:
+        body.append(("if", rng.choice(("lt", "ge")), "p1", "i2", [("bin", "add", 8, "i1", "i1", 1)], []))
+    body += [("bin", "xor", 3, "i0", "i0", "i1"), ("ret", "i0")]
+    return {"name": "m%d" % idx, "ret": "I", "params": ["I", "I"], "body": body}
+
+
+def gen_dowhile(rng, idx):
+    """a do-while loop whose exit test has three to five terms joined by && (flat code: the body, then a chain of conditional
+    branches, the last one back to the top), with or without an if/else in the body"""
+    n = rng.choice((3, 4, 4, 5))
+    flat = [("const", r, 0) for r in ("i0", "i1", "i2", "i3")] + [("const", r, 0) for r in ("l0", "l1")] + [("const", "c0", rng.choice((2, 3)))]
+    flat += [("label", "T"), ("bin", "add", 3, "i0", "i0", "p0"), ("bin", "add", 8, "c0", "c0", -1)]
+    if rng.random() < 0.5:
+        flat += [("br", "lt", "p1", None, "X"), ("bin", "xor", 16, "i0", "i0", 77), ("goto", "Y"), ("label", "X"), ("bin", "add", 8, "i0", "i0", 1), ("label", "Y")]
+    terms = [("le", "c0", None)] + [(rng.choice(("eq", "lt")), rng.choice(("p1", "p2", "p3")), None) for _ in range(n - 2)]
+    for cmp_, a, b in terms:
+        flat.append(("br", cmp_, a, b, "E"))                 # leave the loop when a term fails
+    flat += [("br", rng.choice(("ne", "ge")), rng.choice(("p1", "p2", "p3")), None, "T"), ("label", "E"), ("ret", "i0")]
+    return {"name": "m%d" % idx, "ret": "I", "params": ["I", "I", "I", "I"], "flat": flat}
+
+
 def gen_const_fold(rng, idx):
     """operations whose operands are compile-time constants (const + literal forms, const + const), accumulated into the result:
     whatever the decompiler folds or propagates has to keep Dalvik's arithmetic (truncating division, sign of the remainder,
